@@ -241,17 +241,18 @@ package app
 import (
 	"time"
 
-	"example.com/det/shared"
+	sharedpkg "example.com/det/shared"
 	"github.com/google/wire"
 	_ "github.com/pmezard/go-difflib/difflib"
 )
 
-var sharedA = A{V: 41}
+// shared has the name of the package of the shared set: the generated file must import that package under another name here
+var shared = A{V: 41}
 
 func InitAll() All {
 	wire.Build(wire.Struct(new(All), "*"),
 		wire.Value(A{V: 1}), wire.Value(B{V: "b"}), wire.Value(C{V: time.Minute}), wire.Value(D{V: []int{1, 2}}),
-		wire.Value(E{V: map[string]bool{"k": true}}), wire.Value(F{V: &sharedA}), wire.Value(G{V: [2]string{"x", "y"}}), wire.Value(H{V: 1.5}))
+		wire.Value(E{V: map[string]bool{"k": true}}), wire.Value(F{V: &shared}), wire.Value(G{V: [2]string{"x", "y"}}), wire.Value(H{V: 1.5}))
 	return All{}
 }
 
@@ -269,9 +270,9 @@ func InitB() B {
 	return B{}
 }
 
-func InitCfg() shared.Cfg {
-	wire.Build(shared.Set)
-	return shared.Cfg{}
+func InitCfg() sharedpkg.Cfg {
+	wire.Build(sharedpkg.Set)
+	return sharedpkg.Cfg{}
 }
 '''
 # the other packages of a shared invocation use the same type names, value expressions and imports as the programs under test:
